@@ -196,3 +196,16 @@ claim(
     "four open known findings (wall reflection: full-matrix mass not reversible; energy error first order per bounce for every mass kind).",
     "Hypothesis PBT with metamorphic (reversal), numerical-Jacobian, convergence-order and reference-integrator oracles",
 )
+claim(
+    "C08",
+    "Model-based generation against real ParallelTempering objects with real worker processes (1..8 chains mixing Gibbs, Metropolis, PCA and "
+    "HMC; sorted / unsorted / tied ladders): snapshots through return_chains() around every swap() and the counter deltas give, per round, the "
+    "proposed pairs (disjoint, floor(N/2)), the accepted ones, the hand-over of positions, the re-tempered stored probability (own evaluation / "
+    "T of the receiving chain), untouched bystanders and histories; the exchange law is tested with the harness's own acceptance probability "
+    "(certain exchanges made, impossible ones refused, exact Poisson-binomial tail for the rest); advance accounting (every chain +n, n // "
+    "swap_interval rounds, chain order); workers dead after shutdown; and the metamorphic schedule relation: the same seeds under 2-3 injected "
+    "per-call delay tables (one chain 10x slower, reverse completion order, random) must return bit-identical chains and counters.",
+    "Interleavings are sampled through injected delays, not enumerated (the harness does not own the OS scheduler); termination is a bounded-time "
+    "fact under a 60 s per-case watchdog that reports the innermost library frame.",
+    "Hypothesis model-based histories on real processes + exact Poisson-binomial test + metamorphic delay injection",
+)
